@@ -70,6 +70,22 @@ func main() {
 		return nil
 	})
 
+	// mutation testing only: VERIF_MUTATE_DIR mirrors repo-relative paths whose files REPLACE repo files
+	// (lets a self-test apply a breaking change without touching /repo). Never set by registered commands.
+	mut := map[string]string{}
+	if md := os.Getenv("VERIF_MUTATE_DIR"); md != "" {
+		filepath.Walk(md, func(p string, fi os.FileInfo, err error) error {
+			if err != nil || fi.IsDir() || !strings.HasSuffix(p, ".go") {
+				return nil
+			}
+			rel, _ := filepath.Rel(md, p)
+			mut[filepath.Join(repo, rel)] = p
+			repl[filepath.Join(repo, rel)] = p
+			fmt.Fprintf(os.Stderr, "mkoverlay: MUTATION in effect: %s\n", rel)
+			return nil
+		})
+	}
+
 	var cfg shimCfg
 	if b, err := os.ReadFile(filepath.Join(vdir, "h", pkg, "shim.json")); err == nil {
 		if err := json.Unmarshal(b, &cfg); err != nil {
@@ -86,7 +102,11 @@ func main() {
 	for _, rel := range cfg.ShimFiles {
 		src := filepath.Join(repo, rel)
 		fset := token.NewFileSet()
-		f, err := parser.ParseFile(fset, src, nil, parser.ParseComments)
+		rd := src
+		if m, ok := mut[src]; ok {
+			rd = m
+		}
+		f, err := parser.ParseFile(fset, rd, nil, parser.ParseComments)
 		if err != nil {
 			die("parse %s: %v", rel, err)
 		}
